@@ -48,6 +48,7 @@ def main():
     ap.add_argument('--tier', default='quick')
     ap.add_argument('--no-tests', action='store_true')
     ap.add_argument('--keep', action='store_true')
+    ap.add_argument('--restrict', help='of the automatically chosen checks run only these (comma separated)')
     a = ap.parse_args()
     src = os.path.abspath(a.src)
     patch = os.path.join(src, 'patch.diff')
@@ -55,6 +56,11 @@ def main():
         checks, touched = auto_checks(a.prop, patch)
     else:
         checks, touched = a.checks.split(','), auto_checks(a.prop, patch)[1]
+    if a.restrict:
+        checks = [c for c in checks if c in a.restrict.split(',')]
+        if not checks:
+            print('nothing to run')
+            return 0
     W = tempfile.mkdtemp(prefix='vf-benign-')
     meta = {'id': a.bid, 'property': a.prop, 'kind': 'behaviour-preserving change: every check must stay silent', 'files_touched': touched, 'ran': []}
     try:
